@@ -258,6 +258,18 @@ class Tr:
                 name = f.attr + ''.join('|' + k.arg for k in e.keywords)
                 args = [self.expr(a) for a in e.args] + [self.expr(k.value) for k in e.keywords]
                 return '(ECall %s [%s])' % (cstring(name), '; '.join(args))
+            if isinstance(f, ast.Attribute) and isinstance(f.value, ast.Attribute) and isinstance(f.value.value, ast.Name) and f.value.value.id == 'self' \
+                    and f.value.attr not in ('SeqObj', 'ComplexityObject') \
+                    and f.attr not in ('join', 'lower', 'isspace', 'upper', 'strip', 'count', 'append', 'pop', 'keys', 'add', 'size'):
+                # a method of an object held in an attribute of self: primitive ".method|kw"(object, args, keyword values)
+                name = '.' + f.attr + ''.join('|' + k.arg for k in e.keywords)
+                args = [self.expr(f.value)] + [self.expr(a) for a in e.args] + [self.expr(k.value) for k in e.keywords]
+                return '(ECall %s [%s])' % (cstring(name), '; '.join(args))
+            if isinstance(f, ast.Name) and f.id[:1].isupper() and e.keywords:
+                # construction of another object of the library with keyword arguments: primitive "Class|kw"(args, keyword values)
+                name = f.id + ''.join('|' + k.arg for k in e.keywords)
+                args = [self.expr(a) for a in e.args] + [self.expr(k.value) for k in e.keywords]
+                return '(ECall %s [%s])' % (cstring(name), '; '.join(args))
             if e.keywords:
                 raise Untranslatable('keyword arguments')
             if isinstance(f, ast.Name):
@@ -391,9 +403,11 @@ class Tr:
             return 'SSkip'                      # the guarded verification hook (LOCALCIDER_VERIF): not part of the library's behaviour
         if isinstance(s, ast.Expr) and isinstance(s.value, ast.Call) and dotted(s.value.func) in LOG_CALLS:
             return 'SSkip'
+        if isinstance(s, ast.Assign) and isinstance(s.value, ast.Call) and dotted(s.value.func) == 'self.mklog':
+            return 'SSkip'                      # a log file is created; its name is only ever handed to self.writeLog
         if isinstance(s, ast.Expr) and isinstance(s.value, ast.Call) and isinstance(s.value.func, ast.Attribute) \
                 and isinstance(s.value.func.value, ast.Name) and s.value.func.value.id == 'self' \
-                and (s.value.func.attr.startswith('__check') or s.value.func.attr.startswith('__verify')):
+                and (s.value.func.attr.startswith('__check') or s.value.func.attr.startswith('__verify') or s.value.func.attr == 'sanity_check'):
             return '(SAssign "$_" %s)' % self.expr(s.value)          # a guard method called for its exception
         if isinstance(s, ast.Assign) and len(s.targets) == 1 and isinstance(s.targets[0], ast.Tuple) and isinstance(s.value, ast.Call):
             # (a, b, ...) = f(...): the call's result is bound once, then unpacked by position
@@ -620,6 +634,7 @@ FUNCS = [
     ('g_CWF', 'localcider/backend/sequenceComplexity.py', 'SequenceComplexity', 'CWF', []),
     ('g_LC', 'localcider/backend/sequenceComplexity.py', 'SequenceComplexity', 'LC', []),
     ('g_wl_step', 'localcider/backend/wang_landau.py', 'WangLandauMachine', 'run_normal_WL', [], ('while-body', 'f > self.convergence')),
+    ('g_wl_setup', 'localcider/backend/wang_landau.py', 'WangLandauMachine', 'run_normal_WL', [], ('upto', 'reject = 0')),
     ('g_wl_geometry', 'localcider/backend/wang_landau.py', 'WangLandauMachine', '__init__', [], ('else-of', "WL_type == 'ZOOM'")),
     ('g_wl_flatcheck', 'localcider/backend/wang_landau.py', 'WangLandauMachine', '__run_flatcheck', []),
     ('g_wl_inside', 'localcider/backend/wang_landau.py', 'WangLandauMachine', 'indexInsideRelevantRegion', []),
